@@ -1,6 +1,10 @@
-HOOK_COMMITS = ["89dc048"]
+HOOK_COMMITS = ["89dc048", "3afc1a3"]
 NOT_YET = {}
 chk("C18", "runtime monitoring: hook-controlled schedules + stress, recorded histories checked by porcupine (linearizability) and direct monitors",
     "Every history produced by driving the real lazy map (both generations) through controlled release schedules at its yield hooks (random, PCT-style, depth-first over release decisions) and through uncontrolled stress under the race detector is checked against the sequential compute-if-absent map; held on the schedules observed, not on all interleavings.",
     "Trusts: the hook placement marks the atomic steps; porcupine v1.3.0; the cooperative controller only chooses among real executions. Liveness is restated as bounded progress (a stall must repeat on re-run).",
     "DESIGN.md 3 C18")
+chk("C19", "runtime monitoring: reference-model monitor (event-history fold) after every prefix, snapshot immutability re-reads, eligibility + Hoeffding frequency monitor on host selection",
+    "The library's own URI-update handler and update loop (both generations) are fed synthetic tree-event histories (exhaustive to a bounded length, PRNG beyond) and the live announcement set is compared with an independent fold after every prefix; earlier snapshots are re-read at the end; host selection is drawn thousands of times per announcement set and every draw must be eligible. Held on the histories and draws observed.",
+    "Trusts: synthetic TreeCacheEvents stand in for ZooKeeper; tag-guarded exports add no behaviour; the frequency bound is distribution-free (delta 1e-12) and only catches gross mis-weighting.",
+    "DESIGN.md 3 C19")
